@@ -323,6 +323,8 @@ class CallMixin:
                 v = Z(t, v.e)       # inside the spec function the static class is the declared one
             elif t.is_smt() and not isinstance(v, Z):
                 v = self.to_z(st, v, t)
+            elif t.kind == "arr" and not isinstance(v, Arr):
+                v = self.seq_to_arr(st, v)
             env[p] = v
         fr = Frame(env, sf.module, sf.name)
         fr.spec_module = sf.module
